@@ -75,8 +75,8 @@ Definition ev_eqb (a b : ev) : bool :=
       okey_eqb k1 k2 && option_eqb obj_eqb r1 r2 && option_eqb obj_eqb p1 p2 && pres_eqb q1 q2
   | ERelease k1 r1 p1 q1, ERelease k2 r2 p2 q2 =>
       okey_eqb k1 k2 && obj_eqb r1 r2 && option_eqb obj_eqb p1 p2 && pres_eqb q1 q2
-  | EDelete k1 r1 p1 d1, EDelete k2 r2 p2 d2 =>
-      okey_eqb k1 k2 && obj_eqb r1 r2 && option_eqb obj_eqb p1 p2 && dres_eqb d1 d2
+  | EDelete k1 r1 u1 v1 p1 d1, EDelete k2 r2 u2 v2 p2 d2 =>
+      okey_eqb k1 k2 && obj_eqb r1 r2 && (u1 =? u2) && (v1 =? v2) && option_eqb obj_eqb p1 p2 && dres_eqb d1 d2
   | _, _ => false
   end.
 
